@@ -9,16 +9,13 @@ Local Open Scope list_scope.
 Section Check.
   Variable args : list (string * fv).
 
-  Definition no_min_limitb (vs : list ir_vertex) (h : fold_hdr) (sub : ir_component) : bool :=
+  Definition no_min_limitb (vs : list ir_vertex) (ss : list step) (h : fold_hdr) (sub : ir_component) : bool :=
     match get_min_fold_count_limit args h with
-    | Ok (Some _) =>
-        negb ((match c_outputs sub with [] => true | _ => false end)
-              && (match fo_fsout h with [] => true | _ => false end)
-              && negb (has_tag_on_fold_count vs h))
+    | Ok (Some _) => negb (min_eligible vs ss h sub)
     | _ => true
     end.
 
-  Lemma no_min_limitb_sound vs h sub : no_min_limitb vs h sub = true -> no_min_limit args vs h sub.
+  Lemma no_min_limitb_sound vs ss h sub : no_min_limitb vs ss h sub = true -> no_min_limit args vs ss h sub.
   Proof.
     unfold no_min_limitb, no_min_limit. intros H m Hm. rewrite Hm in H.
     now apply Bool.negb_true_iff in H.
@@ -36,12 +33,12 @@ Section Check.
   Fixpoint wf_compb (outer : list fieldref) (c : ir_component) {struct c} : bool :=
     match c with
     | mkComp _ vs ss _ =>
-        (fix go (ss : list step) : bool :=
-           match ss with
+        (fix go (todo : list step) : bool :=
+           match todo with
            | [] => true
            | SEdge e :: r => edge_ok e && go r
            | SFold h sub :: r =>
-               no_min_limitb vs h sub && disjoint_keysb (fo_imported h) outer &&
+               no_min_limitb vs ss h sub && disjoint_keysb (fo_imported h) outer &&
                wf_compb (outer ++ fo_imported h) sub && go r
            end) ss
     end.
@@ -49,11 +46,31 @@ Section Check.
   Lemma wf_compb_sound : forall c outer, wf_compb outer c = true -> wf_comp args outer c.
   Proof.
     induction c as [root vs ss outs IH] using comp_ind'. intros outer H. cbn [wf_compb wf_comp] in *.
-    induction IH as [|[e|h sub] r Hs _ IHr]; [exact I| |].
-    - apply andb_prop in H. destruct H as (H1 & H2). split; [assumption|apply IHr; assumption].
-    - apply andb_prop in H. destruct H as (H & H4). apply andb_prop in H. destruct H as (H & H3).
-      apply andb_prop in H. destruct H as (H1 & H2). cbn [Psub] in Hs.
-      split; [|apply IHr; assumption]. split; [now apply no_min_limitb_sound|]. split; [now apply disjoint_keysb_sound|apply Hs; assumption].
+    assert (G : forall todo,
+               Forall (Psub (fun sub => forall outer, wf_compb outer sub = true -> wf_comp args outer sub)) todo ->
+               (fix go (todo : list step) : bool :=
+                  match todo with
+                  | [] => true
+                  | SEdge e :: r => edge_ok e && go r
+                  | SFold h sub :: r =>
+                      no_min_limitb vs ss h sub && disjoint_keysb (fo_imported h) outer &&
+                      wf_compb (outer ++ fo_imported h) sub && go r
+                  end) todo = true ->
+               (fix go (todo : list step) : Prop :=
+                  match todo with
+                  | [] => True
+                  | SEdge e :: r => edge_ok e = true /\ go r
+                  | SFold h sub :: r =>
+                      (no_min_limit args vs ss h sub /\ disjoint_keys (fo_imported h) outer /\
+                       wf_comp args (outer ++ fo_imported h) sub) /\ go r
+                  end) todo).
+    { intros todo HF. induction HF as [|[e|h sub] r Hs _ IHr]; intros Hb; [exact I| |].
+      - apply andb_prop in Hb. destruct Hb as (H1 & H2). split; [assumption|apply IHr; assumption].
+      - apply andb_prop in Hb. destruct Hb as (Hb & H4). apply andb_prop in Hb. destruct Hb as (Hb & H3).
+        apply andb_prop in Hb. destruct Hb as (H1 & H2). cbn [Psub] in Hs.
+        split; [|apply IHr; assumption]. split; [now apply no_min_limitb_sound|].
+        split; [now apply disjoint_keysb_sound|apply Hs; assumption]. }
+    apply G; assumption.
   Qed.
 End Check.
 
